@@ -171,7 +171,7 @@ for name in itn: vset_iter_t(community)
                 }
             }
         }
-//@ before seen.len() == graph.get_all_nodes().len()
+//@ endloop 1
     proof {
         let c = communities@;
         let names = node_names_of(graph.nodes_vec@).to_set();
